@@ -14,7 +14,12 @@ NoHomo == Gen(2, (0..15) \ {0, 5, 10, 15}, 1)
 Mixed2 == Gen(2, {0, 1, 2, 4, 6, 8, 9, 11, 13, 14}, 1)          \* out-degrees 1..3 mixed
 G2AC == Gen(2, {0, 1, 4, 5}, 2)                                  \* complete on the 2-mers over {A, C}: contains the all-A vertex
 G2Deg1 == Gen(2, {1, 2, 4, 7, 9, 12}, 1)                         \* a threshold-1 graph with out-degrees 1 and 2 (forced nucleotides)
-G2Quick == {GCB, G2AC, G2Deg1}
+G3Run2 == Gen(3, {1, 4, 5, 16, 17, 20}, 1)                       \* order 3 over {A, C}, no run of three: tandem repeats everywhere, the same
+                                                                 \* vertex is met again at another look-back depth, errors surface a step late
+G3Quick == {G3Run2}
+G2Loop == Gen(2, {0, 1, 6, 8}, 1)                                \* AA (self-loop), AC, CG, GA: an error that lands on the self-loop surfaces one step
+                                                                 \* late and the look-back window holds the same vertex twice (different depths)
+G2Quick == {GCB, G2AC, G2Deg1, G2Loop}
 G2All == {GCB, NoHomo, Mixed2}
 G1Pair == {Gen(1, {0, 1}, 2)}
 G12 == G1Some \cup G2Quick
